@@ -357,13 +357,14 @@ def run(ctx):
         for cs, (status, il), ml in zip(cases, outs, mouts):
             cs.meta["config"] = "%dx%d" % (ns, nwk)
             cs.meta["mode"] = name
+            cs.meta["replay_cmds"] = cs.impl          # ./check C12 --replay <file> feeds these to the harness
             evaluate(cs, status, il, ml, mism, ofail, stats)
             evals += 1
             kk = name + ":" + cs.meta.get("call", cs.meta.get("function", "")) + ((":" + cs.meta["type"]) if "type" in cs.meta else "")
             kinds[kk] = kinds.get(kk, 0) + 1
         for cs, (status, il) in list(zip(cases, outs))[3:40:12]:
             if len(samples) < 8 and status == "OK":
-                samples.append(dict(cs.meta, impl=[l[:160] for l in il[:4]]))
+                samples.append(dict({k: v for k, v in cs.meta.items() if k != "replay_cmds"}, impl=[l[:160] for l in il[:4]]))
     ctx.cov.update(
         evaluations=evals, distinct_nontrivial=len(stats["nontrivial"]), samples=samples,
         rule="grid: qt_loop_balance_* for len<=70 x (interposed) workers<=33 (all 2310 pairs on 1x1, a sample "
@@ -400,6 +401,33 @@ def run(ctx):
 
 
 def replay(ctx, path):
+    """re-run the failing input of a replay file on the real code (and the model) and print both"""
     j = json.load(open(path))
-    print(json.dumps(j, indent=1)[:6000])
-    run(ctx)
+    r = j.get("replay", {})
+    case = r.get("failing_input") or (r.get("first_mismatch") or [None, None])[1]
+    print("# %s: %s" % (j.get("signature"), j.get("what")))
+    if not case or "replay_cmds" not in case:
+        print("# no single input recorded (%s): running the whole check" % r.get("theorem_or_correspondence"))
+        return run(ctx)
+    ns, nwk = (int(x) for x in case["config"].split("x"))
+    exe = ctx.link("c12_loops", ["c12_loops.c"], exclude=["qloop.c"])
+    hdr, outs = run_units(exe, [case["replay_cmds"]], core.qenv(ns, nwk, stack=65536))
+    status, il = outs[0]
+    print("# input: " + json.dumps({k: v for k, v in case.items() if k not in ("replay_cmds", "impl", "model", "impl_output", "claims")}))
+    print("# real code (%s): %s" % (hdr, status))
+    for l in il[:40]:
+        print("  " + l[:300])
+    if status != "OK":
+        ctx.violation("replay", "replayed input: %s" % status, {"failing_input": case, "status": status})
+        return
+    start, stop = case["start"], case["stop"]
+    if case["replay_cmds"][0][0] in "BLQ":
+        rl = [l for l in il if l.startswith("R")][0]
+        act = int([l for l in il if l.startswith(". ")][0].split()[1])
+        why = oracle(parse_ranges(rl), start, stop, act)
+    else:
+        claims = [tuple(int(x) for x in t.split(":")) for l in il[1:-1] for t in l.split()[5:]]
+        why = oracle(claims, start, stop, 0, complete=(il[-1] == "E 1"))
+    print("# property oracle: " + (why or "accepts"))
+    if why:
+        ctx.violation("replay", "replayed input: " + why, {"failing_input": case, "reason": why})
